@@ -1,13 +1,22 @@
 import GoLevel.Proofs.LocksStepTok
+import GoLevel.Proofs.LocksStepTokW
 import GoLevel.Proofs.LocksStepClk
 import GoLevel.Proofs.LocksStepTrlk
-/-! The ownership accounting is preserved by every step of a configuration with the three fixes, if it has
-the fourth as well or no thread executes `SetReadOnly`. -/
+/-! The ownership accounting is preserved by every step of a configuration with the three fixes: `compCommitLk`,
+`tr.lk` and "a token in `writeLockC` has an owner" always (`step_rinvW`); the exact accounting of the token if
+moreover the configuration has the fourth fix or no thread executes `SetReadOnly`, and the two blind take-backs
+of `compWriteLocking` find their own token (`step_rinv`). -/
 namespace GoLevel.Locks
 
+theorem step_rinvW (cfg : Cfg) (h3 : Fixed3 cfg) (s t : St) (f : Bool) (h : Step cfg f s t) (inv : RInvW s) :
+    RInvW t :=
+  ⟨step_tokW s t f cfg h3 h inv.tokI, step_clk s t f cfg h3 h inv.clkI, step_trlk s t f cfg h3 h inv.trlkI⟩
+
 theorem step_rinv (cfg : Cfg) (h3 : Fixed3 cfg) (s t : St) (f : Bool)
-    (h4 : cfg.setReadOnlyReleasesOnClose = true ∨ NoSR s) (h : Step cfg f s t) (inv : RInv s) : RInv t :=
-  ⟨step_rinv_tok s t f cfg h3 h4 h inv, step_rinv_clk s t f cfg h3 h4 h inv, step_rinv_trlk s t f cfg h3 h4 h inv⟩
+    (h4 : cfg.setReadOnlyReleasesOnClose = true ∨ NoSR s)
+    (hJ1 : s.closed = true → 0 < tot srW s.ws → s.ehTok = true) (hJ2 : s.eh = .closing → s.ehTok = true)
+    (h : Step cfg f s t) (inv : RInv s) : RInv t :=
+  ⟨step_tokE s t f cfg h3 h4 hJ1 hJ2 h inv.tokI, step_clk s t f cfg h3 h inv.clkI, step_trlk s t f cfg h3 h inv.trlkI⟩
 
 theorem rinv_of_idle (s : St) (n : Nat) (hw : s.ws = List.replicate n .idle) (h1 : s.tok = false)
     (h2 : s.clk = false) (h3 : s.trlk = false) (h4 : s.trOpen = false) (h5 : s.ehTok = false)
